@@ -68,6 +68,34 @@ def fields_read_by_quantise(repo: Repo) -> Set[str]:
     return out
 
 
+def check_per_format(report: Report, repo: Repo, rule: str) -> None:
+    """History independence of quantise_fwd / quantise_bwd across format objects."""
+    it = Interp(repo, opaque=lambda f: isinstance(f, FuncV) and f.qualname == "FPFormat.quantise")
+    # R1b history independence: a second format that prints the same (E4M3-SR) but differs in its
+    # random-bit count / an equal-looking format object must get its *own* quantiser
+    try:
+        fa = mkformat(it, "stochastic", SR)
+        fb = mkformat(it, "stochastic", SR + 1)
+        for meth in ("quantise_fwd", "quantise_bwd"):
+            used = []
+            for fo in (fa, fb):
+                it.events = []
+                it.call_function(it.class_attr(fo.cls, meth), [fo, P("x", None)], {})
+                ag = [e for e in it.events if e.kind == "autograd"]
+                if len(ag) != 1:
+                    used.append(None)
+                    continue
+                pas = "forward" if meth == "quantise_fwd" else "backward"
+                r = it.call_function(it.class_attr(ag[0]["cls"], pas), [Obj("ctx", term=T("param", ("ctx",))), P("t", None)], {})
+                rt = TM.term_of(r)
+                used.append(dict(rt.args[1]).get("self") if isinstance(rt, T) and rt.op == "call" else None)
+            ok = used == [TM.term_of(fa), TM.term_of(fb)]
+            report.add(rule, f"{FM}::FPFormat.{meth}::per-format", ok, f"{meth} on a second format object (same exponent/mantissa/rounding, other srbits) after a first one must quantise with the second format (no cross-call caching keyed by the printed name)", fmt(used), fmt([TM.term_of(fa), TM.term_of(fb)]))
+    except Unsupported as ex:
+        report.add(rule, f"{FM}::FPFormat.quantise_fwd::per-format", None, f"outside fragment: {ex}")
+
+
+
 def check(report: Report, repo: Repo) -> None:
     report.rule_text = (
         "R1: QuantiseForward.forward returns self.quantise(x) and backward returns its gradient argument itself;"
@@ -114,6 +142,8 @@ def check(report: Report, repo: Repo) -> None:
                 continue
             exp = qcall(arg.term) if quantised else arg.term
             report.add("R1-straight-through", f"{cons}::{pas}", TM.term_equal(TM.term_of(r), exp), f"{pas} must return " + ("self.quantise(<its tensor argument>)" if quantised else "its tensor argument itself, unchanged"), fmt(r), fmt(exp))
+
+    check_per_format(report, repo, "R1-straight-through")
 
     # ------------------------------------------------------------ R2 wrappers
     opq = lambda f: isinstance(f, FuncV) and (f.module.rel == "unit_scaling/functional.py" or f.qualname in ("tuple_to_format", "format_to_tuple", "replace_node_with_function", "_replace_with_quantised", "apply_transform", "simulate_format"))
@@ -187,7 +217,8 @@ def check(report: Report, repo: Repo) -> None:
         if kn not in OPS or not isinstance(w, FuncV):
             continue
         names3, q3, more = OPS[kn]
-        vals = {n: O(f"v_{n}") for n in names3 + more}
+        # definite (non-None) argument values
+        vals = {n: Obj("value", term=T("param", (f"v_{n}",)), open_attrs=False) for n in names3 + more}
         forms: List[Tuple[str, List[str], List[str]]] = [("all three positional", list(names3), [])]
         if kn.endswith("linear"):
             forms.append(("third omitted", list(names3[:2]), []))
@@ -196,9 +227,15 @@ def check(report: Report, repo: Repo) -> None:
             forms.append((f"'{mname}' by keyword", list(names3), [mname]))
         if more:
             forms.append((f"'{more[0]}' positional", list(names3) + [more[0]], []))
+        none_kw = None
+        if "constraint" in more:
+            none_kw = "constraint"  # an explicit None differs from the default for this parameter
+            forms.append(("'constraint'=None by keyword", list(names3), ["constraint=None"]))
         for fname, pos, kws in forms:
             cons = f"{SF}::_replace_with_quantised[{'U' if kn.startswith('unit_scaling') else 'F'}.{kn.rsplit('.', 1)[1]}]"
-            node = Obj("torch.fx.node.Node", attrs=dict(args=tuple(vals[n] for n in pos), kwargs={n: vals[n] for n in kws}, target=k, op="call_function"), term=T("param", ("node",)), open_attrs=False)
+            explicit_none = [n[:-5] for n in kws if n.endswith("=None")]
+            kws = [n for n in kws if not n.endswith("=None")]
+            node = Obj("torch.fx.node.Node", attrs=dict(args=tuple(vals[n] for n in pos), kwargs={**{n: vals[n] for n in kws}, **{n: None for n in explicit_none}}, target=k, op="call_function"), term=T("param", ("node",)), open_attrs=False)
             graph = Obj("torch.fx.graph.Graph", term=T("param", ("graph",)))
             ff, bf = Obj("FPFormat", term=T("param", ("fwd_format",))), Obj("FPFormat", term=T("param", ("bwd_format",)))
             rwq.events = []
@@ -240,6 +277,10 @@ def check(report: Report, repo: Repo) -> None:
                 for nm, v in zip(more, va):
                     flat.setdefault(nm, v)
             okall = True
+            for n_ in explicit_none:
+                if flat.get(n_, "<absent>") is not None:
+                    okall = False
+                    report.add("R4-splice", cons, False, f"{fname}: '{n_}=None' of the original call must reach the wrapper as None (for this parameter None is not the default)", fmt(flat.get(n_, "<absent>")), "None")
             for n_ in pos + kws:
                 same = TM.term_of(flat.get(n_)) == TM.term_of(vals[n_])
                 okall = okall and same
